@@ -4,6 +4,7 @@ import (
 	"fmt"
 	"time"
 
+	"verifsim/c11"
 	"verifsim/c16"
 	"verifsim/c19"
 	"verifsim/core"
@@ -13,6 +14,8 @@ func buildSpec(id, tier string, seed uint64, raceBin, realBin string) (*core.Che
 	switch id {
 	case "C19":
 		return c19.Spec(tier, seed), nil
+	case "C11":
+		return c11.Spec(tier, seed, raceBin), nil
 	case "C16":
 		return c16.Spec(tier, seed, raceBin), nil
 	}
